@@ -13,6 +13,9 @@ CHECKS = {
  "C12": ("watch-channel oracle (must-close / must-stay-open sets computed from a model) evaluated at every Notify of random part.Tree histories",
          "Exploration: seeded random histories with up to 80 retained channels (root, Get, Prefix, InsertWatch/ModifyWatch, from trees and from inside transactions), in per-node and root-only modes; the root watch is held to exactness, the others to must-close, and no channel may close outside Notify.",
          "Trusts the model of which keys a transaction changed; spurious closes of Get/Prefix channels are not violations (the statement only demands closing).", "5/C12"),
+ "C13": ("reference-model monitor (map keyed by bit string, brute-force longest match / covered set / order) over random lpm.Trie histories + persistence re-verification; race detector slice",
+         "Exploration: seeded random histories over key widths 16/32/128 with prefixes nesting and diverging at every bit, Reuse/Clear, abandoned transactions and side branches; every Insert/Delete/Lookup/LookupExact/Prefix/LowerBound/All/Len result and every retained trie/iterator is compared with the model.",
+         "Trusts the bit-string model; Lookup is asked only with full-length keys and stored prefixes (the domain of the statement).", "5/C13"),
 }
 
 NOT_YET = "check not built yet in this session (planned: see DESIGN.md section 5)"
